@@ -875,6 +875,7 @@ func GetMachine(db *bbolt.DB, id string) (*amhist.MachineRecord, error) {
 		if pack == nil {
 			return nil
 		}
+		ret = &amhist.MachineRecord{}
 		return Decode(pack, ret, true)
 	})
 
